@@ -37,7 +37,18 @@ ASSUMPTIONS = [
 ]
 TRUSTED = ["translate/gen_curves.py reads (p,a,b,Gx,Gy,n) from the live generator objects; Pratt certificates come from sympy and are "
            "checked in the Lean kernel, so sympy is not trusted"]
-KNOWN = {}
+
+
+def _bls_cofactor(v) -> bool:
+    """BLS12-381 G1: multiply reduces the scalar modulo r, which is wrong for curve points outside the order-r subgroup"""
+    a = str(v.get("input", "")).split(" ")
+    if len(a) != 4 or a[0] != "ec_mul" or split_curve(a[1])[0] != "bls12_381" or "cofactor" not in str(v.get("what", "")):
+        return False
+    n = consts(a[1])[5]
+    return cc.impl("ec_mul_orderless %s %s %d" % (a[1], a[2], n)) != "ok inf"
+
+
+KNOWN = {"bls12-381-cofactor": _bls_cofactor}
 
 BIG = ("secp256k1", "secp256r1")
 
@@ -110,6 +121,15 @@ def _in_quantifier(tok, *pts) -> bool:
 
 
 def oracle(op: str, out: str):
+    """the property evaluated on the implementation alone; an auxiliary implementation call that raises where the property
+    says it cannot (sum of two curve points, multiple of a curve point) makes the answer unparsable and is reported"""
+    try:
+        return _oracle(op, out)
+    except (ValueError, IndexError, TypeError) as e:
+        return "an auxiliary group operation on curve points raised or returned a malformed value (%s: %s)" % (type(e).__name__, str(e)[:80])
+
+
+def _oracle(op: str, out: str):
     a = op.split(" ")
     k = a[0]
     if k in ("ec_add", "ec_sub"):
@@ -166,7 +186,13 @@ def oracle(op: str, out: str):
         if not on_curve(tok, P):
             return None
         if split_curve(tok)[0] == "bls12_381" and not _bls_in_subgroup(P):
-            return None  # cofactor: documentation stream only
+            # the curve has a cofactor: `e %= order` is only right on the order-r subgroup.  Compared with the ladder of
+            # the order-less curve object (k*P as repeated doubling/adding, no reduction of k)
+            if e >= 0 and P != (None, None):
+                ref = cc.impl("ec_mul_orderless %s %s %d" % (tok, a[2], e))
+                if ref.startswith("ok ") and out.startswith("ok ") and _canon_s(tok, ref[3:]) != _canon_s(tok, out[3:]):
+                    return "k*P differs from P added to itself k times on a point outside the order-r subgroup (cofactor): %s" % ref[:80]
+            return None
         R = _ok_pt(out)
         if R is None:
             return "scalar multiplication raised: " + out
@@ -437,6 +463,8 @@ def gen(ctx, emit):
             for A, B in ((P1, P1), (P1, Pm1), (P1, P2), (P2, neg2), (P3, P3), (Pm1, Pm1)):
                 for sa, sb in (((p, 0), (0, 0)), ((0, 0), (p, 0)), ((0, p), (0, 0)), ((0, 0), (0, p)), ((p, p), (2 * p, -p)), ((-p, 0), (0, 0)),
                                ((0, -p), (0, 0)), ((0, 0), (-p, -p)), ((3 * p, 0), (-2 * p, p))):
+                    if A[0] is None or B[0] is None:
+                        continue  # only when a constant of the curve was changed: (n-1)*G is then not what it should be
                     emit("ec_add %s %d,%d %d,%d" % (tok, A[0] + sa[0], A[1] + sa[1], B[0] + sb[0], B[1] + sb[1]))
             emit("ec_sub %s %s %s" % (tok, show_pt(P3), show_pt(P1)))
             emit("ec_sub %s %s %s" % (tok, show_pt(P1), show_pt(P1)))
